@@ -23,20 +23,23 @@ From HV Require Import C07.Lin.
 Lemma repo_linearizable :
   forall (val arg : Type) (wfun : op arg -> nat -> list val -> val) (wp : bool) (c0 : cfg val arg) ls c,
     initial c0 -> exec wfun repo_skel wp c0 ls c ->
-    (exists σ pl tr ph,
-       lin wfun repo_skel wp c0 ls c σ pl tr /\ seq_hist wfun repo_skel (abs_of c0) (lins tr) σ /\
-       wb (fun _ => PIdle) tr ph /\ io_marks tr = io_labels ls) /\
-    (forall t o log, In (LEnd t o log) ls ->
-       exists H H1 H2 s s1 s2,
-         seq_hist wfun repo_skel (abs_of c0) H s /\ H = H1 ++ (t, o, log) :: H2 /\
-         seq_hist wfun repo_skel (abs_of c0) H1 s1 /\ seq_run wfun repo_skel o s1 = Some (s2, log)) /\
-    ((forall t, c_thr c t = None) ->
-       exists H σ, seq_hist wfun repo_skel (abs_of c0) H σ /\
-         (forall t o log, In (LEnd t o log) ls -> In (t, o, log) H) /\
+    exists σ pl tr ph,
+      lin wfun repo_skel wp c0 ls c σ pl tr /\ seq_hist wfun repo_skel (abs_of c0) (lins tr) σ /\
+      wb (fun _ => PIdle) tr ph /\ io_marks tr = io_labels ls /\
+      (forall t o log, In (t, o, log) (lins tr) -> In (LBegin t o) ls) /\
+      (forall t, exists extra, thread_hist t (lins tr) = thread_returns t ls ++ extra /\ length extra <= 1 /\
+                               (c_thr c t = None -> extra = [])) /\
+      (forall t o log, In (LEnd t o log) ls ->
+         exists H1 H2 s1 s2, lins tr = H1 ++ (t, o, log) :: H2 /\
+           seq_hist wfun repo_skel (abs_of c0) H1 s1 /\ seq_run wfun repo_skel o s1 = Some (s2, log)) /\
+      ((forall t, c_thr c t = None) ->
          (forall v, c_val c v = s_val σ v) /\ (forall p, c_heap c (c_ptr c p) = s_pub σ p)).
 Proof.
-  intros val arg wfun wp c0 ls c Hi He. pose proof repo_skel_wf as W. split; [|split].
-  - eapply g_linearizable; eassumption.
+  intros val arg wfun wp c0 ls c Hi He. pose proof repo_skel_wf as W.
+  destruct (g_linearizable val arg wfun repo_skel wp repo_wlock W c0 ls c Hi He) as (σ & pl & tr & ph & L & Hh & Hwb & Hio).
+  destruct (g_history_is_execution val arg wfun repo_skel wp repo_wlock W c0 ls c σ pl tr Hi L) as [Hinv Hthr].
+  exists σ, pl, tr, ph. repeat split; auto.
   - intros t o log Hin. eapply g_committed; eassumption.
-  - intro Hq. eapply g_no_lost_update; eassumption.
+  - destruct (g_no_lost_update val arg wfun repo_skel wp repo_wlock W c0 ls c σ pl tr Hi L H) as (_ & _ & Hv & _). apply Hv.
+  - destruct (g_no_lost_update val arg wfun repo_skel wp repo_wlock W c0 ls c σ pl tr Hi L H) as (_ & _ & _ & Hp). apply Hp.
 Qed.
